@@ -5,6 +5,7 @@ from sa.astutil import (call_name, calls_in, dotted, norm, walk_no_nested, fact_
                         last_attr, names_in)
 from sa.loader import AnalysisError
 from sa.symexpand import expanded_returns
+from sa.canon import canon
 from checks import common
 
 TITRATABLE_READERS = {
@@ -26,37 +27,7 @@ def run(ctx):
     gmod = prog.mod('group')
 
     # ------------------------------------------------------------------ R1
-    prs = lib.func('parse_res_string')
-    rets = [r for r in walk_no_nested(prs) if isinstance(r, ast.Return)]
-    shape_ok = len(rets) == 1 and isinstance(rets[0].value, ast.Tuple) and len(rets[0].value.elts) == 3
-    ctx.ob('C14.R1', 'parse:returns-triple', shape_ok,
-           'parse_res_string returns a (chain, number, insertion code) triple', lib,
-           rets[0] if rets else prs)
-    if shape_ok:
-        chain_v, num_v, ic_v = [norm(e) for e in rets[0].value.elts]
-        src = norm(prs)
-        arg = prs.args.args[0].arg
-        ctx.ob('C14.R1', 'parse:chain-before-colon',
-               ('%s, ' % chain_v) in src and ".split(':')" in src.replace('"', "'")
-               and any(isinstance(s, ast.Assign) and isinstance(s.targets[0], ast.Tuple)
-                       and norm(s.targets[0].elts[0]) == chain_v for s in walk_no_nested(prs)),
-               'the chain is the part before the colon, unmodified', lib, prs)
-        num_defs = [s for s in walk_no_nested(prs) if isinstance(s, ast.Assign)
-                    and norm(s.targets[0]) == num_v]
-        ctx.ob('C14.R1', 'parse:number-is-int',
-               bool(num_defs) and all(isinstance(s.value, ast.Call) and call_name(s.value) == 'int'
-                                      for s in num_defs),
-               'the residue number is converted with int() (Atom.res_num is an int too)', lib,
-               num_defs[0] if num_defs else prs)
-        ic_defs = [s for s in walk_no_nested(prs) if isinstance(s, ast.Assign)
-                   and norm(s.targets[0]) == ic_v]
-        vals = sorted(norm(s.value) for s in ic_defs)
-        blank = [s for s in ic_defs if isinstance(s.value, ast.Constant) and s.value.value == ' ']
-        last = [s for s in ic_defs if norm(s.value).endswith('[-1]')]
-        ctx.ob('C14.R1', 'parse:icode-default-blank', len(blank) == 1 and len(last) == 1
-               and len(ic_defs) == 2,
-               "the insertion code is the trailing character, or ' ' (the raw blank column) when "
-               "there is none (definitions %s)" % vals, lib, ic_defs[0] if ic_defs else prs)
+    common.check_res_string_parse(ctx, 'C14.R1', prog)
     # the membership test in init_group
     ig = cc.func('ConformationContainer.init_group')
     tests = [n for n in walk_no_nested(ig) if isinstance(n, ast.Compare)
